@@ -1,2 +1,8 @@
 import Desverif.Props.C01
 import Desverif.Props.C03
+import Desverif.Props.C07
+import Desverif.Props.C12
+import Desverif.Props.C14
+import Desverif.Props.C16
+import Desverif.Props.C17
+import Desverif.Props.C18
